@@ -36,6 +36,8 @@ Section Proofs.
   Notation msl_of := (msl_of zero).
   Notation dmsl_of := (dmsl_of zero).
   Notation sumlist := (sumlist zero add).
+  Notation inflow := (inflow zero add sub).
+  Notation kernel_cols := (kernel_cols one).
   Notation step_m := (step_m mul sub).
   Notation step_p := (step_p mul sub).
   Notation step_msl := (step_msl sub).
@@ -242,14 +244,6 @@ Section Proofs.
     intros k b' Hk. replace (S k0 + k)%nat with (k0 + S k)%nat by lia. apply H. exact Hk.
   Qed.
 
-  (* the hypotheses under which the Jacobian rows of the nodes are the exact mass balance:
-     what both hydraulic kernels write (df_dm_nodes = 1, load_vec_nodes_from = load_vec_nodes_to
-     = MDOTINIT) - checked against the running code by the correspondence "kernel columns" *)
-  Definition kernel_cols (bs : list branch) (m : nat -> A) : Prop :=
-    forall k b, nth_error bs k = Some b -> b_dmn b = 1 /\ b_lvf b = m k /\ b_lvt b = m k.
-
-  Notation inflow := (fun (g : nat -> A) i bs => nodesum (fun k _ => g k) (fun k _ => g k) i O bs).
-
   (* 2. balance_after_step *)
   Lemma balance_lemma (ns : list node) (bs : list branch) (m x : nat -> A) (alpha : A) i nd :
     solves ns bs x -> kernel_cols bs m ->
@@ -257,7 +251,7 @@ Section Proofs.
     inflow (fun k => m k - x (length ns + k)%nat * alpha) i bs - n_load nd =
     (1 - alpha) * (inflow m i bs - n_load nd).
   Proof.
-    intros Hs Hk Hn Ht.
+    intros Hs Hk Hn Ht. unfold Model.inflow.
     assert (Hi : (i < length ns)%nat) by (apply nth_error_Some; congruence).
     destruct (node_row_lemma ns bs x i nd Hn Ht) as [R E].
     assert (Hd : (i < dim ns bs)%nat) by (unfold dim; lia).
@@ -300,9 +294,6 @@ Section Proofs.
       rewrite (IH (S j0) j s H). ring.
   Qed.
 
-  Definition ends_in_range (ns : list node) (bs : list branch) : Prop :=
-    forall b, In b bs -> (b_fn b < length ns)%nat /\ (b_tn b < length ns)%nat.
-
   Lemma from_trips_rows (ns : list node) n (bs : list branch) : forall k0,
     ends_in_range ns bs ->
     Forall (fun tr : trip => (fst (fst tr) < length ns)%nat) (from_trips ns n k0 bs ++ to_trips ns n k0 bs).
@@ -342,11 +333,11 @@ Section Proofs.
   (* 3. slack_balance_after_step: no alpha on the slack-mass update (as in the code) *)
   Lemma slack_balance_lemma (ns : list node) (bs : list branch) (m x : nat -> A) j s :
     solves ns bs x -> kernel_cols bs m -> ends_in_range ns bs ->
-    nth_error (slack_nodes ns) j = Some s -> dmsl_of ns s = - 1 ->
+    nth_error (slack_nodes ns) j = Some s -> dmsl_of ns s = opp one ->
     msl_of ns s - x (length ns + length bs + j)%nat =
     inflow (fun k => m k - x (length ns + k)%nat * 1) s bs - load_of ns s.
   Proof.
-    intros Hs Hk Hr Hj Hd.
+    intros Hs Hk Hr Hj Hd. unfold Model.inflow.
     assert (Hlt : (j < length (slack_nodes ns))%nat) by (apply nth_error_Some; congruence).
     assert (Hdim : (length ns + length bs + j < dim ns bs)%nat) by (unfold dim; lia).
     apply Hs in Hdim. clear Hs. rename Hdim into Hs.
@@ -431,8 +422,9 @@ Section Proofs.
     sumlist (map feed (slack_nodes ns)) = - sumlist (map (@n_load A) ns).
   Proof.
     intros Hr Hn Hsl.
-    unfold slack_nodes. rewrite sum_positions.
+    unfold slack_nodes. rewrite sum_positions. cbv beta.
     pose proof (sum_inflow_zero g (length ns) bs O Hr) as Z.
+    change (sumfrom (fun i => inflow g i bs) O (length ns) = 0) in Z.
     assert (L : forall (l : list node) k0, sumlist (map (@n_load A) l) =
               sumfrom (fun i => match nth_error l (i - k0) with Some nd => n_load nd | None => 0 end) k0 (length l)).
     { induction l as [|a l IH]; intros k0; simpl; auto. rewrite Nat.sub_diag. simpl. f_equal.
@@ -451,14 +443,13 @@ Section Proofs.
           transitivity (inflow g i bs - n_load nd + n_load nd); [rewrite Q|]; ring.
       - assert (length ns <= i)%nat by (apply nth_error_None; auto). lia. }
     rewrite Z in E.
-    set (S1 := sumfrom _ O (length ns)) in *. set (S2 := sumfrom _ O (length ns)) in *.
-    transitivity (S1 + S2 - S2); [ring|]. rewrite E. ring.
+    match type of E with ?a + ?b = _ => transitivity (a + b - b); [ring | rewrite E; ring] end.
   Qed.
 
   (* ... and its instance after one full Newton step (alpha = 1) from any iterate *)
   Lemma global_after_step_lemma (ns : list node) (bs : list branch) (m x : nat -> A) :
     solves ns bs x -> kernel_cols bs m -> ends_in_range ns bs ->
-    (forall s, In s (slack_nodes ns) -> dmsl_of ns s = - 1) ->
+    (forall s, In s (slack_nodes ns) -> dmsl_of ns s = opp one) ->
     sumlist (step_msl (length ns + length bs) (map (msl_of ns) (slack_nodes ns)) x)
     = - sumlist (map (@n_load A) ns).
   Proof.
@@ -480,6 +471,195 @@ Section Proofs.
     - intros i nd En Et. unfold g.
       pose proof (balance_lemma ns bs m x 1 i nd Hs Hk En Et) as B. rewrite B. ring.
     - intros s nd En Et. unfold feed, load_of. now rewrite En.
+  Qed.
+
+
+  (* ------------------------------------------------------------------ rows used by C03 *)
+  Lemma from_to_nonslack (ns : list node) n (bs : list branch) : forall k0,
+    Forall (fun tr : trip => is_slack ns (fst (fst tr)) = false) (from_trips ns n k0 bs ++ to_trips ns n k0 bs).
+  Proof.
+    intros k0. apply Forall_app. split; revert k0; induction bs as [|b bs IH]; intros k0; simpl;
+      try constructor; apply Forall_app; (split; [|apply IH]).
+    - destruct (is_slack ns (b_fn b)) eqn:E; constructor; auto.
+    - destruct (is_slack ns (b_tn b)) eqn:E; constructor; auto.
+  Qed.
+
+  Lemma slack_node_row_lemma (ns : list node) (bs : list branch) x s nd :
+    nth_error ns s = Some nd -> is_TSlack (n_typ nd) = true ->
+    rowsum (trips ns bs) s x = 1 * x s /\ nth s (eps ns bs) 0 = 0.
+  Proof.
+    intros Hn Ht.
+    assert (Hi : (s < length ns)%nat) by (apply nth_error_Some; congruence).
+    assert (Hs : is_slack ns s = true) by (unfold is_slack, typ_of; now rewrite Hn).
+    split.
+    - unfold Model.trips. rewrite !rowsum_app.
+      rewrite (rowsum_other (branch_trips _ _ _)).
+      2:{ eapply Forall_impl; [|apply branch_trips_rows]. simpl; intros; lia. }
+      rewrite (rowsum_other (pc_trips _ _ _)).
+      2:{ eapply Forall_impl; [|apply pc_trips_rows]. simpl; intros; lia. }
+      rewrite slack_trips_rowsum, Hs.
+      rewrite (rowsum_other (slackmass_trips _ _ _ _ _ _)).
+      2:{ eapply Forall_impl; [|apply slackmass_rows]. simpl; intros; lia. }
+      pose proof (from_to_nonslack ns (length ns) bs O) as F. apply Forall_app in F. destruct F as [F1 F2].
+      rewrite (rowsum_other (from_trips _ _ _ _)).
+      2:{ eapply Forall_impl; [|apply F1]. simpl. intros a Ha Hc. rewrite Hc in Ha. congruence. }
+      rewrite (rowsum_other (to_trips _ _ _ _)).
+      2:{ eapply Forall_impl; [|apply F2]. simpl. intros a Ha Hc. rewrite Hc in Ha. congruence. }
+      ring.
+    - rewrite (eps_node_entry ns bs s nd Hn), Ht. reflexivity.
+  Qed.
+
+  Lemma branch_trips_rowsum n x (bs : list branch) : forall k0 k b,
+    nth_error bs k = Some b ->
+    rowsum (branch_trips n k0 bs) (n + k0 + k)%nat x =
+    b_dm b * x (n + k0 + k)%nat + b_dp b * x (b_fn b) + b_dp1 b * x (b_tn b).
+  Proof.
+    induction bs as [|b0 bs IH]; intros k0 k b H; [destruct k; discriminate|].
+    cbn [Model.branch_trips rowsum fst snd]. destruct k as [|k]; simpl in H.
+    - inversion H; subst. rewrite Nat.add_0_r, Nat.eqb_refl.
+      rewrite (rowsum_other (branch_trips _ _ _)).
+      2:{ eapply Forall_impl; [|apply branch_trips_rows]. simpl; intros; lia. }
+      ring.
+    - destruct (Nat.eqb_spec (n + k0) (n + k0 + S k)); [lia|].
+      replace (n + k0 + S k)%nat with (n + S k0 + k)%nat by lia. apply IH. exact H.
+  Qed.
+
+  (* the momentum row of branch k: its three Jacobian entries plus the PC entries of that row *)
+  Lemma branch_row_lemma (ns : list node) (bs : list branch) x k b :
+    ends_in_range ns bs -> nth_error bs k = Some b ->
+    rowsum (trips ns bs) (length ns + k)%nat x =
+      b_dm b * x (length ns + k)%nat + b_dp b * x (b_fn b) + b_dp1 b * x (b_tn b)
+      + rowsum (pc_trips ns (length ns) bs) (length ns + k)%nat x
+    /\ nth (length ns + k) (eps ns bs) 0 = if b_pc b then 0 else b_lvb b.
+  Proof.
+    intros Hr Hb.
+    assert (Hk : (k < length bs)%nat) by (apply nth_error_Some; congruence).
+    split; [|apply eps_branch_entry; exact Hb].
+    unfold Model.trips. rewrite !rowsum_app.
+    pose proof (branch_trips_rowsum (length ns) x bs O k b Hb) as B.
+    rewrite Nat.add_0_r in B. rewrite B.
+    assert (F := from_trips_rows ns (length ns) bs O Hr). apply Forall_app in F. destruct F as [F1 F2].
+    rewrite (rowsum_other (from_trips _ _ _ _)).
+    2:{ eapply Forall_impl; [|apply F1]. simpl; intros; lia. }
+    rewrite (rowsum_other (to_trips _ _ _ _)).
+    2:{ eapply Forall_impl; [|apply F2]. simpl; intros; lia. }
+    rewrite slack_trips_rowsum.
+    replace (is_slack ns (length ns + k)) with false.
+    2:{ unfold is_slack, typ_of. destruct (nth_error ns (length ns + k)) eqn:E; auto.
+        assert (length ns + k < length ns)%nat by (apply nth_error_Some; congruence). lia. }
+    rewrite (rowsum_other (slackmass_trips _ _ _ _ _ _)).
+    2:{ eapply Forall_impl; [|apply slackmass_rows]. simpl; intros; lia. }
+    ring.
+  Qed.
+
+  Lemma pc_trips_notpc (ns : list node) (bs : list branch) x k b :
+    nth_error bs k = Some b -> b_pc b = false ->
+    rowsum (pc_trips ns (length ns) bs) (length ns + k)%nat x = 0.
+  Proof.
+    intros Hb Hp. apply rowsum_other. unfold Model.pc_trips. apply Forall_forall.
+    intros tr H. apply in_map_iff in H. destruct H as [[kb c] [<- H]]. simpl.
+    apply in_combine_l in H. unfold pc_branches in H. apply positions_spec in H.
+    destruct H as [_ [b' [H1 H2]]]. rewrite Nat.sub_0_r in H1.
+    intros E. assert (kb = k) by lia. subst. congruence.
+  Qed.
+
+  Lemma positions_NoDup {X} (p : X -> bool) l : forall k0, NoDup (positions p k0 l).
+  Proof.
+    induction l as [|a l IH]; intros k0; simpl; [constructor|].
+    destruct (p a); simpl; auto. constructor; auto.
+    intros H. apply positions_spec in H. lia.
+  Qed.
+
+  Lemma combine_NoDup_fst {X Y} (a : list X) : forall (b : list Y),
+    NoDup a -> NoDup (map fst (combine a b)).
+  Proof.
+    induction a as [|x a IH]; intros b H; simpl; [constructor|].
+    destruct b as [|y b]; simpl; [constructor|]. inversion H; subst. constructor; auto.
+    intros Hin. apply in_map_iff in Hin. destruct Hin as [[x' y'] [E Hin]]. simpl in E. subst.
+    apply in_combine_l in Hin. contradiction.
+  Qed.
+
+  Lemma pair_rowsum n x (l : list (nat * nat)) : forall kb c,
+    NoDup (map fst l) -> In (kb, c) l ->
+    rowsum (map (fun kc => ((n + fst kc)%nat, snd kc, 1)) l) (n + kb)%nat x = 1 * x c.
+  Proof.
+    induction l as [|[k0 c0] l IH]; intros kb c Hnd Hin; [destruct Hin|].
+    simpl in Hnd. inversion Hnd; subst. cbn [map rowsum fst snd]. destruct Hin as [E|Hin].
+    - inversion E; subst. rewrite Nat.eqb_refl. rewrite rowsum_other; [ring|].
+      apply Forall_forall. intros tr H. apply in_map_iff in H. destruct H as [[k' c'] [<- H]]. simpl.
+      intros E'. assert (k' = kb) by lia. subst. apply H1. apply in_map_iff. exists (kb, c'). auto.
+    - destruct (Nat.eqb_spec (n + k0) (n + kb)).
+      + exfalso. assert (k0 = kb) by lia. subst. apply H1. apply in_map_iff. exists (kb, c). auto.
+      + apply IH; auto.
+  Qed.
+
+  Lemma combine_covers {X Y} (a : list X) : forall (b : list Y) c,
+    length a = length b -> In c b -> exists k, In (k, c) (combine a b).
+  Proof.
+    induction a as [|x a IH]; intros b c Hl Hin; destruct b as [|y b]; simpl in *; try discriminate; [tauto|].
+    destruct Hin as [->|Hin]; [exists x; now left|].
+    destruct (IH b c) as [k Hk]; auto. exists k. now right.
+  Qed.
+
+  (* C03.1a  any solution leaves the pressure of every slack node unchanged *)
+  Lemma fixed_slack_lemma (ns : list node) (bs : list branch) x s nd :
+    solves ns bs x -> nth_error ns s = Some nd -> is_TSlack (n_typ nd) = true -> x s = 0.
+  Proof.
+    intros Hs Hn Ht.
+    assert (Hi : (s < length ns)%nat) by (apply nth_error_Some; congruence).
+    destruct (slack_node_row_lemma ns bs x s nd Hn Ht) as [R E].
+    assert (Hd : (s < dim ns bs)%nat) by (unfold dim; lia).
+    apply Hs in Hd. rewrite R, E in Hd. transitivity (1 * x s); [ring|exact Hd].
+  Qed.
+
+  (* C03.1b  ... and of every pressure-controlled node, provided the rows of the PC branches
+     carry no other entry (PressureControl.adaption_after_derivatives_hydraulic zeroes
+     JAC_DERIV_DM/DP/DP1 of BRANCH_TYPE == PC rows) and there are as many PC branches as PC nodes *)
+  Lemma fixed_pc_lemma (ns : list node) (bs : list branch) x c :
+    solves ns bs x -> ends_in_range ns bs ->
+    length (pc_branches bs) = length (pc_nodes ns) ->
+    (forall k b, nth_error bs k = Some b -> b_pc b = true -> b_dm b = 0 /\ b_dp b = 0 /\ b_dp1 b = 0) ->
+    In c (pc_nodes ns) -> x c = 0.
+  Proof.
+    intros Hs Hr Hl Hz Hc.
+    destruct (combine_covers (pc_branches bs) (pc_nodes ns) c Hl Hc) as [kb Hin].
+    pose proof (in_combine_l _ _ _ _ Hin) as Hkb. unfold pc_branches in Hkb.
+    apply positions_spec in Hkb. destruct Hkb as [_ [b [Hb Hp]]]. rewrite Nat.sub_0_r in Hb.
+    assert (Hk : (kb < length bs)%nat) by (apply nth_error_Some; congruence).
+    destruct (branch_row_lemma ns bs x kb b Hr Hb) as [R E].
+    assert (Hd : (length ns + kb < dim ns bs)%nat) by (unfold dim; lia).
+    apply Hs in Hd. rewrite R, E, Hp in Hd.
+    destruct (Hz kb b Hb Hp) as [Z1 [Z2 Z3]]. rewrite Z1, Z2, Z3 in Hd.
+    unfold Model.pc_trips in Hd. rewrite (pair_rowsum (length ns) x _ kb c) in Hd; auto.
+    - transitivity (0 * x (length ns + kb)%nat + 0 * x (b_fn b) + 0 * x (b_tn b) + 1 * x c); [ring|exact Hd].
+    - apply combine_NoDup_fst. apply positions_NoDup.
+  Qed.
+
+  (* C03.3  identity rows (FlowControl with control_active, CirculationPumpMass, HeatConsumer:
+     JAC_DERIV_DM = 1, JAC_DERIV_DP = JAC_DERIV_DP1 = 0, LOAD_VEC_BRANCHES = 0) keep the flow *)
+  Lemma identity_row_lemma (ns : list node) (bs : list branch) x k b :
+    solves ns bs x -> ends_in_range ns bs -> nth_error bs k = Some b ->
+    b_pc b = false -> b_dm b = 1 -> b_dp b = 0 -> b_dp1 b = 0 -> b_lvb b = 0 ->
+    x (length ns + k)%nat = 0.
+  Proof.
+    intros Hs Hr Hb Hp H1 H2 H3 H4.
+    assert (Hk : (k < length bs)%nat) by (apply nth_error_Some; congruence).
+    destruct (branch_row_lemma ns bs x k b Hr Hb) as [R E].
+    assert (Hd : (length ns + k < dim ns bs)%nat) by (unfold dim; lia).
+    apply Hs in Hd. rewrite R, E, Hp, (pc_trips_notpc ns bs x k b Hb Hp), H1, H2, H3, H4 in Hd.
+    transitivity (1 * x (length ns + k)%nat + 0 * x (b_fn b) + 0 * x (b_tn b) + 0); [ring|exact Hd].
+  Qed.
+
+  (* momentum row of an ordinary branch: dm x_b + dp x_from + dp1 x_to = load_vec *)
+  Lemma momentum_row_lemma (ns : list node) (bs : list branch) x k b :
+    solves ns bs x -> ends_in_range ns bs -> nth_error bs k = Some b -> b_pc b = false ->
+    b_dm b * x (length ns + k)%nat + b_dp b * x (b_fn b) + b_dp1 b * x (b_tn b) = b_lvb b.
+  Proof.
+    intros Hs Hr Hb Hp.
+    assert (Hk : (k < length bs)%nat) by (apply nth_error_Some; congruence).
+    destruct (branch_row_lemma ns bs x k b Hr Hb) as [R E].
+    assert (Hd : (length ns + k < dim ns bs)%nat) by (unfold dim; lia).
+    apply Hs in Hd. rewrite R, E, Hp, (pc_trips_notpc ns bs x k b Hb Hp) in Hd. rewrite <- Hd. ring.
   Qed.
 
 End Proofs.
